@@ -6,6 +6,7 @@ catch it in seeded/<id>/meta.json ("caught_by") and seeded/RESULTS.md.  Usage:
 import concurrent.futures as cf, json, os, re, subprocess, sys
 ROOT = os.path.dirname(os.path.dirname(os.path.abspath(__file__)))
 tier = sys.argv[1] if len(sys.argv) > 1 else "quick"
+label = tier + ("-seed" + os.environ["VERIF_SEED"] if os.environ.get("VERIF_SEED") else "")
 prefix = sys.argv[2] if len(sys.argv) > 2 else ""
 RELATED = {"C01": ["C02"], "C02": [], "C03": [], "C04": ["C07"], "C05": ["C06"], "C06": ["C05"], "C07": ["C04"], "C08": ["C15"],
            "C09": ["C10"], "C10": ["C09"], "C11": ["C17"], "C12": [], "C13": [], "C14": [], "C15": ["C08"], "C16": [], "C17": ["C11"],
@@ -30,12 +31,12 @@ with cf.ThreadPoolExecutor(max_workers=4) as ex:
         print(sid, res, flush=True)
         mp = os.path.join(ROOT, "seeded", sid, "meta.json")
         meta = json.load(open(mp))
-        meta.setdefault("caught_by", {})[tier] = caught
-        meta.setdefault("check_exit_codes", {})[tier] = res
+        meta.setdefault("caught_by", {})[label] = caught
+        meta.setdefault("check_exit_codes", {})[label] = res
         json.dump(meta, open(mp, "w"), indent=1)
         rows.append((sid, res, caught))
-with open(os.path.join(ROOT, "seeded", "RESULTS-%s.md" % tier), "w") as f:
-    f.write("# Seeded changes vs. checks (%s tier)\n\nexit 1 = the check reports a violation (caught), 0 = missed, 2 = inconclusive\n\n| seeded change | own property | results | caught by |\n|---|---|---|---|\n" % tier)
+with open(os.path.join(ROOT, "seeded", "RESULTS-%s.md" % label), "w") as f:
+    f.write("# Seeded changes vs. checks (%s)\n\nexit 1 = the check reports a violation (caught), 0 = missed, 2 = inconclusive\n\n| seeded change | own property | results | caught by |\n|---|---|---|---|\n" % label)
     for sid, res, caught in rows:
         f.write("| %s | %s | %s | %s |\n" % (sid, sid[:3], " ".join("%s=%d" % kv for kv in sorted(res.items())), ", ".join(caught) or "**nothing**"))
 missed = [sid for sid, res, caught in rows if sid[:3] not in caught]
